@@ -258,7 +258,14 @@ def g_def(rng, dist):
             dist["count:from '*' defaults"] += 1
         types.append(["*", star])
         dist["star_defaults"] += 1
+    # a node type that is used in `relations` but has NO entry of its own in `types` (only the '*' defaults and the
+    # relation spec apply to it); its type marker `ty` then comes from the relation spec
+    absent = {rng.choice(names)} if rng.random() < 0.25 else set()
+    if absent:
+        dist["type_without_entry"] += 1
     for t in names:
+        if t in absent:
+            continue
         s = g_attrs(rng, dist, 0, 2)
         s.insert(rng.randrange(len(s) + 1), ["ty", {"c": {"s": t}}])
         s.insert(rng.randrange(len(s) + 1), ["at", {"c": {"s": "{idx}@{hier_idx}"}}])
@@ -282,6 +289,8 @@ def g_def(rng, dist):
         for ct in chosen:
             s = g_attrs(rng, dist, 0, 4)
             s = [kv for kv in s if kv[0] != "ty"]
+            if ct in absent:
+                s.insert(rng.randrange(len(s) + 1), ["ty", {"c": {"s": ct}}])
             if rng.random() < 0.4:
                 s.append(["src", {"c": {"s": "rel"}}])
             if rng.random() < 0.85:
